@@ -135,7 +135,7 @@ def main(argv=None):
         for o in obligations:
             base = dict(
                 kind=o.get("kind", "ch"), module=o["module"], body=o["body"], cfg=o["cfg"],
-                assertions=o.get("assertions", 0), repo=REPO, timeout=o.get("timeout", 900),
+                assertions=o.get("assertions", 0), repo=REPO, timeout=o.get("timeout", 400 if a.tier == "quick" else 1800),
                 path_timeout=o.get("path_timeout", 120), twin=False, prefix=[], obligation=o["name"],
             )
             o["_base"] = base
@@ -156,7 +156,23 @@ def main(argv=None):
         random.Random(seed).shuffle(tasks)
         # longest obligations first helps the tail; keep the seed-shuffle inside equal weights
         tasks.sort(key=lambda t: -t.get("weight", 0))
-        results = [json.loads(r) for r in pool.map(_run, tasks, chunksize=1)]
+        # overall wall-clock budget: a change to the code under test must never make a check run for hours
+        budget = float(os.environ.get("VERIF_BUDGET_S", "1500" if a.tier == "quick" else "7200"))
+        deadline = t0 + budget
+        pending = [(t, pool.apply_async(_run, (t,))) for t in tasks]
+        results = []
+        timed_out = 0
+        for t, job in pending:
+            left = deadline - time.time()
+            try:
+                results.append(json.loads(job.get(timeout=max(left, 0.01))))
+            except mp.TimeoutError:
+                timed_out += 1
+                out = {k: t.get(k) for k in ("obligation", "kind", "module", "body", "cfg", "prefix", "assertions", "twin")}
+                out.update(state="BUDGET_EXCEEDED", wall_s=0.0, error="overall time budget of %.0f s exceeded" % budget)
+                results.append(out)
+        if timed_out:
+            pool.terminate()
     finally:
         pool.close()
         pool.join()
